@@ -450,6 +450,12 @@ pub fn run(ctx: &mut Ctx) {
 
     // 5. arbitrary packet sequences: several flows, FIN/RST, missing or repeated SYN, SYN with payload,
     //    reverse-direction first, same-endpoint tuples
+    // a whole exchange as a plain packet sequence: both reported, flow removed
+    {
+        let mut pkts = conn_pkts(&C1, &segments(req0, &[], C1.isn_c, true));
+        pkts.extend(conn_pkts(&C1, &segments(res0, &[], C1.isn_s, false)).into_iter().skip(2));
+        emit_pkts(ctx, &procs, &pkts);
+    }
     let n = ctx.n(1200, 20000);
     for _ in 0..n {
         let mut pkts = vec![];
